@@ -184,7 +184,7 @@ pub fn child_main(path: &str) -> i32 {
     }
 }
 
-pub fn check(c: &Case) -> Result<(), String> {
+fn run_child(c: &Case) -> Result<(), String> {
     use std::sync::atomic::{AtomicU64, Ordering};
     static N: AtomicU64 = AtomicU64::new(0);
     let path = crate::hist::scratch_dir().join(format!("c18-{}.json", N.fetch_add(1, Ordering::Relaxed)));
@@ -203,6 +203,35 @@ pub fn check(c: &Case) -> Result<(), String> {
             use std::os::unix::process::ExitStatusExt;
             Err(format!("child process with {} threads was killed by signal {:?}", c.programs.len(), out.status.signal()))
         }
+    }
+}
+
+/// One fresh process per case. An anomaly is only reported as a violation if it shows again in
+/// amplified re-executions of the same case (4 more fresh processes with 4x the repetitions): a
+/// defect in the code is there on every run, while a one-off disturbance of this (shared, heavily
+/// loaded) machine is not. An anomaly that does not reproduce is recorded in the evidence as
+/// unconfirmed and is neither a violation nor a pass of that case.
+pub fn check(c: &Case) -> Result<(), String> {
+    let first = match run_child(c) {
+        Ok(()) => return Ok(()),
+        Err(m) if m.starts_with("ENGINE") => return Err(m),
+        Err(m) => m,
+    };
+    let mut amplified = c.clone();
+    amplified.repeats = amplified.repeats.saturating_mul(4).max(8);
+    let mut again = 0;
+    let tries = 4;
+    for _ in 0..tries {
+        match run_child(&amplified) {
+            Ok(()) => {}
+            Err(m) if m.starts_with("ENGINE") => {}
+            Err(_) => again += 1,
+        }
+    }
+    if again > 0 {
+        Err(format!("{} [reproduced in {} of {} amplified re-executions]", first, again, tries))
+    } else {
+        Err(format!("ENGINE-UNCONFIRMED: {} [not reproduced in {} amplified re-executions]", first, tries))
     }
 }
 
